@@ -63,9 +63,25 @@ pub(crate) fn decode_character_string(mut from: &[u8]) -> Result<Cow<'_, [u8]>, 
         }
         let len = from.len();
         from = &from[1..len - 1];
+
+        // Undo the escaping applied by `append_character_string` to quoted strings.
+        if from.contains(&b'\\') {
+            let mut unescaped = Vec::with_capacity(from.len());
+            let mut bytes = from.iter();
+            while let Some(&byte) = bytes.next() {
+                if byte == b'\\' {
+                    match bytes.next() {
+                        Some(&escaped) => unescaped.push(escaped),
+                        None => return Err(()),
+                    }
+                } else {
+                    unescaped.push(byte);
+                }
+            }
+            return Ok(Cow::Owned(unescaped));
+        }
     }
 
-    // TODO: remove the backslashes if any
     Ok(Cow::Borrowed(from))
 }
 
@@ -361,8 +377,15 @@ fn append_txt_record(
     if value.len() > MAX_TXT_VALUE_LENGTH {
         return Err(MdnsResponseError::TxtRecordTooLong);
     }
-    let mut buffer = vec![value.len() as u8];
+    // The length byte must describe the character string as it is actually
+    // written, i.e. including the quotes and escapes added for values with spaces.
+    let mut buffer = vec![0];
     append_character_string(&mut buffer, value)?;
+    let encoded_len = buffer.len() - 1;
+    if encoded_len > MAX_TXT_VALUE_LENGTH {
+        return Err(MdnsResponseError::TxtRecordTooLong);
+    }
+    buffer[0] = encoded_len as u8;
 
     append_u16(out, buffer.len() as u16);
     out.extend_from_slice(&buffer);
